@@ -142,4 +142,12 @@ theorem templateCounts_sum (sc st : List Nat) (nt c : Nat) (hlen : st.length = s
 example : templateCounts [3, 5, 3, 3, 5] [0, 2, 2, 0, 1] 4 3 = [2, 0, 1, 0] ∧
     ([2, 0, 1, 0] : List Nat).sum = 3 ∧ spikesInClusters [3, 5, 3, 3, 5] [3] = [0, 2, 3] := by decide
 
+/-- Selecting the spikes of ALL clusters present (the sorted distinct ids of the assignment vector — what `_unique`
+returns) gives every spike exactly once, in order: the union of all groups is `0..n-1`. -/
+theorem spikesInClusters_all (sc : List Nat) :
+    spikesInClusters sc (distinctSorted sc) = List.range sc.length :=
+  Lemmas.spikesInClusters_all sc
+
+example : distinctSorted [3, 5, 3, 3, 5] = [3, 5] ∧ spikesInClusters [3, 5, 3, 3, 5] [3, 5] = [0, 1, 2, 3, 4] := by decide
+
 end PhyVerif.C07
